@@ -64,6 +64,7 @@ type FuncContract struct {
 	Modifies []string
 	Loops    []*LoopContract
 	Asserts  []*Clause
+	AtReturns []*Clause   // obligations at return statements (where the clause's variables are in scope)
 	CallSites []*CallSite // obligations at every call of a named callee inside this function
 	Options  map[string]string
 	File     string
@@ -126,7 +127,7 @@ type ContractFile struct {
 	NClauses int
 }
 
-var keywordRe = regexp.MustCompile(`^(func|extern|spec|pred|lemma|axiom|requires|ensures|invariant|step|mustcall|decreases|loop|modifies|assert|trusted|vars|assume|call|exec|conclude|uses|use|let|callsite|order|elems|recv|wf|less|key)\b`)
+var keywordRe = regexp.MustCompile(`^(func|extern|spec|pred|lemma|axiom|requires|ensures|atreturn|invariant|step|mustcall|decreases|loop|modifies|assert|trusted|vars|assume|call|exec|conclude|uses|use|let|callsite|order|elems|recv|wf|less|key)\b`)
 var labelRe = regexp.MustCompile(`^([A-Za-z_][A-Za-z0-9_.]*):([^:].*)$`)
 
 func ParseContractFile(path, pkg string) (*ContractFile, error) {
@@ -323,6 +324,16 @@ func ParseContractFile(path, pkg string) (*ContractFile, error) {
 				return nil, err
 			}
 			cur.CallSites = append(cur.CallSites, &CallSite{Callee: f[0], C: c})
+		case "atreturn":
+			if cur == nil {
+				return nil, fmt.Errorf("%s:%d: atreturn outside func", path, it.line)
+			}
+			c, err := parseClause("assert", rest, it.line)
+			if err != nil {
+				return nil, err
+			}
+			cur.AtReturns = append(cur.AtReturns, c)
+			cf.NClauses++
 		case "uses":
 			if cur == nil {
 				return nil, fmt.Errorf("%s:%d: uses outside func", path, it.line)
